@@ -120,6 +120,17 @@ type iterState struct {
 	lastSnap string // dump of the snapshot passed to the last refreshing Next
 }
 
+// a retained watch channel of a query (C06 oracle)
+type watchRec struct {
+	ch      <-chan struct{}
+	tab     int
+	q       []string // query words as in the op (kind idx key | all), nil for InsertWatch
+	pk      []byte   // InsertWatch: the object's primary key
+	result  string   // result when handed out (on the committed state it was asked of)
+	fromTxn bool     // asked inside the open write transaction
+	closed  bool     // last observed
+}
+
 type snapRec struct {
 	txn  statedb.ReadTxn
 	dump string
@@ -142,6 +153,8 @@ type eng struct {
 	ending atomic.Bool
 
 	ref *refDB // independent reference (spec-level oracle)
+
+	watches []*watchRec
 }
 
 var cur atomic.Pointer[eng]
@@ -328,6 +341,74 @@ func (e *eng) snapshotsFrozen() string {
 
 func (e *eng) settleGC() { synctest.Wait() }
 
+// runQuery evaluates the query words q (as in a `q` op, without source and table) on txn
+func (e *eng) runQuery(txn statedb.ReadTxn, tab int, q []string) (res string, watch <-chan struct{}) {
+	t := e.tabs[tab]
+	mkq := func() statedb.Query[*Obj] {
+		switch q[1] {
+		case "lu":
+			k := parseLKey(q[2])
+			return luIndex.Query(k.Data, statedb.PrefixLen(k.Len))
+		case "ln":
+			k := parseLKey(q[2])
+			return lnIndex.Query(k.Data, statedb.PrefixLen(k.Len))
+		}
+		return e.query(q[1], hx.UnHex(q[2]))
+	}
+	switch q[0] {
+	case "get":
+		o, rev, w, found := t.GetWatch(txn, mkq())
+		if found {
+			return objS(o, rev), w
+		}
+		return "none", w
+	case "list":
+		seq, w := t.ListWatch(txn, mkq())
+		return seqS(seq), w
+	case "prefix":
+		seq, w := t.PrefixWatch(txn, mkq())
+		return seqS(seq), w
+	case "lb":
+		seq, w := t.LowerBoundWatch(txn, mkq())
+		return seqS(seq), w
+	case "all":
+		seq, w := t.AllWatch(txn)
+		return seqS(seq), w
+	}
+	return "?", nil
+}
+
+// watchOracle checks the retained watch channels after `event` (C06):
+// commit: a channel whose query result on a fresh snapshot differs from the result it was handed
+// out with must be closed by now (no missed change); abort/other: no channel may have closed.
+func (e *eng) watchOracle(event string) string {
+	bad := ""
+	fresh := e.db.ReadTxn()
+	for i, w := range e.watches {
+		nowClosed := isClosed(w.ch)
+		if nowClosed && !w.closed && event != "commit" {
+			bad = fmt.Sprintf(" !BAD:C06:closed-by-%s(w%d)", event, i)
+		}
+		w.closed = nowClosed
+		if event == "commit" && !nowClosed && !w.fromTxn {
+			var cur string
+			if w.q != nil {
+				cur, _ = e.runQuery(fresh, w.tab, w.q)
+			} else {
+				o, rev, found := e.tabs[w.tab].Get(fresh, idIndex.Query(w.pk))
+				cur = "none"
+				if found {
+					cur = objS(o, rev)
+				}
+			}
+			if cur != w.result {
+				bad = fmt.Sprintf(" !BAD:C06:missed-change(w%d:%s->%s)", i, strings.ReplaceAll(w.result, " ", "_"), strings.ReplaceAll(cur, " ", "_"))
+			}
+		}
+	}
+	return bad
+}
+
 // ---------------------------------------------------------------- ops
 func (e *eng) Op(f []string, line string, out *hx.Out) {
 	bad := ""
@@ -446,6 +527,9 @@ func (e *eng) Op(f []string, line string, out *hx.Out) {
 			bad = b
 		}
 		e.settleGC()
+		if b := e.watchOracle("commit"); b != "" {
+			bad = b
+		}
 		emit("M:*", "ok")
 	case "abort":
 		if e.wtxn == nil {
@@ -459,6 +543,9 @@ func (e *eng) Op(f []string, line string, out *hx.Out) {
 		if d := e.dump(e.db.ReadTxn()); d != before {
 			bad = " !BAD:C02:abort-changed-committed-state"
 		}
+		if b := e.watchOracle("abort"); b != "" {
+			bad = b
+		}
 		emit("M:*", "ok")
 	case "snap":
 		sid := atoi(f[1])
@@ -466,6 +553,28 @@ func (e *eng) Op(f []string, line string, out *hx.Out) {
 		e.snaps[sid] = &snapRec{txn: rtxn, dump: e.dump(rtxn)}
 		e.order = append(e.order, sid)
 		emit("M:*", "ok")
+	case "wq":
+		// wq <src> <tab> <query...>: like q, but through the *Watch variant; the channel is retained
+		txn, ok := e.source(f[1])
+		if !ok || (len(f) > 5 && (f[4] == "lu" || f[4] == "ln") && (f[3] == "get" || f[3] == "list") && parseLKey(f[5]).Len != 16) {
+			emit("M:*", "n/a")
+			return
+		}
+		tab := atoi(f[2])
+		res, ch := e.runQuery(txn, tab, f[3:])
+		if f[1] == "fresh" && isClosed(ch) {
+			bad = " !BAD:C06:closed-when-handed-out"
+		}
+		// the result the channel guards: that of the committed state the snapshot shows; for queries
+		// inside the open write transaction nothing is claimed about missed changes
+		e.watches = append(e.watches, &watchRec{ch: ch, tab: tab, q: f[3:], result: res, fromTxn: f[1] == "txn", closed: isClosed(ch)})
+		if f[1] != "txn" && f[1] != "fresh" {
+			// an old snapshot: the result may already be stale; remember what a fresh one says only if equal
+			if cur, _ := e.runQuery(e.db.ReadTxn(), tab, f[3:]); cur != res {
+				e.watches[len(e.watches)-1].fromTxn = true // no missed-change claim
+			}
+		}
+		emit("P:C04,C06,C01", "%s", res)
 	case "q":
 		txn, ok := e.source(f[1])
 		if !ok {
